@@ -11,7 +11,7 @@ use std::collections::{BTreeMap, BTreeSet};
 pub const META: PropertyMeta = PropertyMeta {
     id: "C20",
     level: "exploration",
-    rule: "local: proptest-generated histories of account-level operations (create / update / move / delete / archive / unarchive secrets of all kinds with labels and tags from a small vocabulary and favourites; create / rename / delete folders; sign-out/sign-in and fresh instance, after which the index is re-initialised as an application does) on an account whose search index was initialised; after every step the incremental index is compared with a fresh SearchIndex filled by add_folder over the same unlocked folders: equal document maps (folder, secret) -> (label, sorted tags, kind, favourite), exactly one document per live model secret, DocumentCount (per folder, per kind, per tag, favourites) equal after dropping zero entries and equal to a recount from the model, and equal query_map result sets for needles derived from the written labels and tags (whole label, words, 2-5-grams, tags) plus needles of deleted secrets. sync: the same comparison after merges received from a second device (sub-check `sync`). Non-trivial = the history contains a delete / move / archive and a later update or re-initialisation (local), or a merge that touched an indexed folder (sync). Distinct = distinct history.",
+    rule: "local: proptest-generated histories of account-level operations (create / update / move / delete / archive / unarchive secrets of all kinds with labels and tags from a small vocabulary and favourites; create / rename / delete folders; sign-out/sign-in and fresh instance, after which the index is re-initialised as an application does) on an account whose search index was initialised; after every step the incremental index is compared with a fresh SearchIndex filled by add_folder over the same unlocked folders: equal document maps (folder, secret) -> (label, sorted tags, kind, favourite), exactly one document per live model secret, DocumentCount (per folder, per kind, per tag, favourites) equal after dropping zero entries and equal to a recount from the model, and equal query_map result sets for needles derived from the written labels and tags (whole label, words, 2-5-grams, tags) plus needles of deleted secrets. sync: the same comparison after merges received from a second device (sub-check `sync`). The sync sub-check's offline edits also contain compact_folder, moves between folders, change_folder_password and meta-only updates (favourite flag, tags); the known C04 shapes listed in the C02 rule are excluded by construction and counted. Non-trivial = the history contains a delete / move / archive and a later update or re-initialisation (local), or a merge that touched an indexed folder (sync). Distinct = distinct history.",
     assumptions: &[
         "zero counters left behind by the implementation are legitimate and dropped before comparing",
         "query results are compared as sets of (folder, secret); ranking is not part of the property",
